@@ -54,6 +54,9 @@ func rulesC07(c *Ctx) {
 	ruleParentChain(c, "C07.CHAIN")
 	// a failing pre-commit action aborts only if it was appended to the list the transaction runs
 	ruleCtxIdentity(c, "C07.CTXIDENTITY")
+	ruleErrHolderShared(c, "C07.CHAINHOLDER")
+	ruleErrorLookedAtOnEveryPath(c, "C07.LOOKEDAT", c.prodFuncs("boltz"))
+	ruleHandedHolderConsulted(c, "C07.HANDEDHOLDER")
 }
 
 // ---- C07.HOLDER ------------------------------------------------------------------------------
